@@ -176,22 +176,53 @@ func DecodeGoTags(s string) (DecodedIdentifier, error) {
 // List from https://github.com/golang/lint/blob/master/lint.go
 var commonInitialisms = []string{"ACL", "API", "ASCII", "CPU", "CSS", "DNS", "EOF", "GUID", "HTML", "HTTP", "HTTPS", "ID", "IP", "JSON", "LHS", "QPS", "RAM", "RHS", "RPC", "SLA", "SMTP", "SQL", "SSH", "TCP", "TLS", "TTL", "UDP", "UI", "UID", "UUID", "URI", "URL", "UTF8", "VM", "XML", "XMPP", "XSRF", "XSS"}
 
+// longestInitialismPrefix returns the longest common initialism of at most
+// maxLen bytes that s starts with, or the empty string if there is none.
+func longestInitialismPrefix(s string, maxLen int) string {
+	longest := ""
+	for _, initialism := range commonInitialisms {
+		if len(initialism) <= maxLen && len(initialism) > len(longest) && strings.HasPrefix(s, initialism) {
+			longest = initialism
+		}
+	}
+	return longest
+}
+
+// splitInitialisms splits s into a sequence of common initialisms, preferring
+// longer initialisms (so "HTTPS" is not read as "HTTP" + "S") and backtracking
+// when the remainder cannot be split. The second return value is false if s is
+// not a concatenation of common initialisms.
+func splitInitialisms(s string) ([]string, bool) {
+	if len(s) == 0 {
+		return []string{}, true
+	}
+	for maxLen := len(s); maxLen > 0; {
+		initialism := longestInitialismPrefix(s, maxLen)
+		if initialism == "" {
+			break
+		}
+		if rest, ok := splitInitialisms(s[len(initialism):]); ok {
+			return append([]string{strings.ToLower(initialism)}, rest...), true
+		}
+		maxLen = len(initialism) - 1
+	}
+	return nil, false
+}
+
 // Given an entirely uppercase string, extract any initialisms sequentially from the start of the string and return them with the remainder of the string
 func extractInitialisms(s string) []string {
+	if words, ok := splitInitialisms(s); ok {
+		return words
+	}
 	words := []string{}
 
 	for {
-		initialismFound := false
-		for _, initialism := range commonInitialisms {
-			if len(s) >= len(initialism) && initialism == s[:len(initialism)] {
-				initialismFound = true
-				words = append(words, strings.ToLower(initialism))
-				s = s[len(initialism):]
-			}
-		}
-		if !initialismFound {
+		initialism := longestInitialismPrefix(s, len(s))
+		if initialism == "" {
 			break
 		}
+		words = append(words, strings.ToLower(initialism))
+		s = s[len(initialism):]
 	}
 
 	if len(s) > 0 {
